@@ -163,11 +163,19 @@ Definition run_ok (c : cfs) (pls : list (string * list dbentry)) : bool := foral
 Definition units_of (c : cfs) (pls : list (string * list dbentry)) : list entry :=
   flat_map (fun pl => db_units compilers source_extensions (fs_of c) (snd pl)) pls.
 
+Lemma forced_spec fs es :
+  map sev_of_wrec (flat_map (forced_warnings fs) es) = flat_map (forced_missing fs) es.
+Proof.
+  induction es as [|e es IH]; [reflexivity|]. cbn [flat_map]. rewrite map_app, IH. f_equal.
+  unfold forced_warnings, forced_missing. induction (e_incs e) as [|n r IHr]; [reflexivity|].
+  cbn [flat_map]. rewrite map_app, IHr. destruct (search fs (e_dirs e) (n, dirname (e_file e), false)); reflexivity.
+Qed.
+
 Theorem events_partial c fuel cb pls l :
   fs_structured (fs_of c) -> run_ok c pls = true ->
   find_S c fuel cb pls = Ok l ->
   exists o, find_M c fuel cb pls = Ok o /\
-            l = map sev_of_wrec (all_records o) ++ flat_map (forced_missing (fs_of c)) (units_of c pls).
+            l = map sev_of_wrec (all_records o).
 Proof.
   intros Hfs Hok. unfold find_S, find_M, run_find_S, run_find_M, units_of.
   destruct (load_dbs_spec (fs_of c) pls Hok) as (ws & ess & -> & Hc & Hs). rewrite Hc.
@@ -176,8 +184,8 @@ Proof.
   destruct (run_entries_S (fs_of c) fuel es) as [[evs vis]|x] eqn:E; [|discriminate].
   rewrite (structured_builds c _ Hfs), (run_entries_sim (fs_of c) Hfs fuel es evs vis E).
   intros H; inversion H; subst l. eexists. split; [reflexivity|].
-  unfold all_records. cbn [o_db o_parse o_inc]. rewrite !map_app, Hs, parse_all_spec, map_map.
-  rewrite <- !app_assoc. reflexivity.
+  unfold all_records. cbn [o_db o_parse o_inc o_forced]. rewrite !map_app, Hs, parse_all_spec, map_map.
+  rewrite forced_spec. reflexivity.
 Qed.
 
 (* fully honoured input: no record at all, and nothing is printed at the end *)
@@ -187,25 +195,12 @@ Theorem silent c fuel cb pls :
   exists o, find_M c fuel cb pls = Ok o /\ all_records o = [] /\ closing_M o = ([], [0; 0; 0]).
 Proof.
   intros Hfs Hok H. destruct (events_partial c fuel cb pls [] Hfs Hok H) as (o & Ho & Hl).
-  exists o. split; [exact Ho|]. symmetry in Hl. apply app_eq_nil in Hl. destruct Hl as [Hl _].
+  exists o. split; [exact Ho|]. symmetry in Hl.
   apply map_eq_nil in Hl. split; [exact Hl|]. unfold closing_M. rewrite Hl. reflexivity.
 Qed.
 
-(* ---------- the two kinds of input that ARE dropped silently ---------- *)
+(* ---------- an input that IS dropped silently ---------- *)
 Definition forced_witness_c : cfs := [(["B"; "src"; "a.c"], {| cf_lines := []; cf_unk := [] |})].
-Definition forced_witness_pls : list (string * list dbentry) :=
-  [("P0.json", [{| db_file := ["B"; "src"; "a.c"]; db_argv0 := Some "gcc"; db_args := [CForce ["cfg.h"]] |}])].
-Lemma forced_include_refuted :
-  exists c pls o, fs_structured (fs_of c) /\ run_ok c pls = true /\
-    find_S c 5 (codebase_of c) pls = Ok [SMissingForced ["B"; "src"; "a.c"] ["cfg.h"]] /\
-    find_M c 5 (codebase_of c) pls = Ok o /\ all_records o = [].
-Proof.
-  exists forced_witness_c, forced_witness_pls. eexists. split.
-  - intros p ls. cbn. destruct (path_eqb p ["B"; "src"; "a.c"]); [|discriminate].
-    intros H; inversion H. exists []. reflexivity.
-  - split; [vm_compute; reflexivity|]. split; [vm_compute; reflexivity|]. split; vm_compute; reflexivity.
-Qed.
-
 Definition abbrev_witness_pls : list (string * list dbentry) :=
   [("P0.json", [{| db_file := ["B"; "src"; "a.c"]; db_argv0 := Some "clang++"; db_args := [CRaw "-fsycl"] |}])].
 Lemma abbreviation_refuted :
